@@ -245,7 +245,11 @@ def on_worker_thread(fn):
 
 def run_wsgi(om, errs, ex, raw, B, short=True):
     stream = ChoiceStream(ex, raw, _src_prefix(), short=short, menu_cap=6 if len(raw) > 30 else None)
-    app = om.Ombott({'max_memfile_size': B})
+    if len(raw) % 2:
+        app = om.Ombott({'max_memfile_size': B})
+    else:
+        app = om.Ombott()                        # (configured after construction, as applications created at import time are)
+        app.setup({'max_memfile_size': B})
 
     def h():
         b1 = app.request.body.read()
